@@ -95,7 +95,7 @@ def generate(rng, tier, shard, nshards):
             else:
                 kw = rng.choice([{'transform': 'transData'}, {'transform': 'transData', 'linewidth': 2.5}, {'linewidth': None}, {'linestyle': None}, {'edgecolor': None}, {'edgecolor': 'green'}, {'ec': 'green'}, {'fill': True, 'facecolor': 'green'}, {'edgecolor': 'cyan'}, {'linewidth': 7.5}, {'fill': True, 'facecolor': 'yellow'}, {'alpha': 0.25}, {'linestyle': '-.'},
                                  {'ec': 'cyan'}, {'lw': 6.5}, {'ls': '-.'}, {'fill': True, 'fc': 'yellow'}])
-        yield {'lane': cls, 'region': reg, 'origin': rng.choice([[0, 0], [0, 0], [rng.uniform(-50, 50), rng.uniform(-50, 50)], [10, -3], [0.5, 0.5], [-0.25, 7.75], [100, 64], [7, 3], [100, 64]]), 'kw': kw,
+        yield {'lane': cls, 'region': reg, 'origin': rng.choice([[0, 0], [0, 0], [rng.uniform(-50, 50), rng.uniform(-50, 50)], [10, -3], [0.5, 0.5], [-0.25, 7.75], [100, 64], [7, 3], [100, 64], [0, 12], [5, 0], [0, -7.5]]), 'kw': kw,
                'rs': rng.randrange(2 ** 31)}
 
 
